@@ -30,6 +30,16 @@ def input_sets(prop, seed, tier, n_random=None, families=None, corner=True, max_
         if fam in ("long", "longshort") and n > 300:
             n = r.choice([3, 20, 100])
         S = gen.FAMILIES[fam](r, n)
+        # texts are bounded (quick 64 KiB .. thorough 8 MiB): drop the longest strings beyond the budget
+        budget = (256 << 10) if tier == "quick" else (8 << 20)
+        tot = 0
+        keep = []
+        for x in S:
+            tot += len(x) + 1
+            if tot > budget:
+                break
+            keep.append(x)
+        S = keep
         if S:
             out.append(("%s:%d:s%d.%d" % (fam, len(S), seed, i), S))
     return out
@@ -42,6 +52,8 @@ def param_vectors(kind, r, S, k=1, legal_only=True):
     for _ in range(k):
         if kind in FC:
             c = [2, 3, 4, 5, 7, 8, 16, 32, 64, max(2, n - 1), max(2, n), n + 1, 4096]
+            if n > 3000:   # a bucket of n strings makes every access O(n): quadratic workloads are legitimately slow, not spinning
+                c = [2, 3, 4, 5, 7, 8, 16, 32, 64, 257, 1024, 4096]
             out.append((r.choice(c),))
         elif kind in ("HASHHF", "HASHRPF", "HASHUFFDAC", "HASHRPDAC"):
             out.append((r.choice([0, 1, 10, 25, 50, 100, 300]),))
